@@ -210,3 +210,9 @@ pub fn pwhash(outlen: usize, pw: &[u8], salt: &[u8; 16], ops: u64, mem: usize, a
     let r = unsafe { ffi::crypto_pwhash(out.as_mut_ptr(), outlen as u64, pw.as_ptr() as *const _, pw.len() as u64, salt.as_ptr(), ops, mem, alg) };
     if r == 0 { Some(out) } else { None }
 }
+
+pub fn stream_xsalsa20(len: usize, n: &[u8; 24], k: &[u8; 32]) -> Vec<u8> {
+    let mut c = vec![0u8; len];
+    unsafe { ffi::crypto_stream_xsalsa20(c.as_mut_ptr(), len as u64, n.as_ptr(), k.as_ptr()); }
+    c
+}
